@@ -170,6 +170,7 @@ type Contracts struct {
 	GlobalInvs []*GlobalInv
 	ChanInvs   []*ChanInv
 	TokChans   []string // Type.field of channels that carry the duty to complete the requests sent on them
+	FifoChans  []string // Type.field of channels whose message order is tracked (ghost log + send/receive counters)
 }
 
 // TableCheck: ground obligations over literal tables of the repository.
@@ -343,6 +344,9 @@ func (cs *Contracts) LoadContractFile(path, pkg string) error {
 			return nil
 		case "tokchan":
 			cs.TokChans = append(cs.TokChans, strings.Fields(rest)...)
+			return nil
+		case "fifochan":
+			cs.FifoChans = append(cs.FifoChans, strings.Fields(rest)...)
 			return nil
 		case "writers":
 			// writers props=C19 Type.field func func ...
@@ -534,6 +538,11 @@ func (cs *Contracts) LoadContractFile(path, pkg string) error {
 			if strings.HasPrefix(rest, "@ret ") {
 				at = "ret"
 				rest = strings.TrimSpace(rest[5:])
+			} else if strings.HasPrefix(rest, "@before:") || strings.HasPrefix(rest, "@after:") {
+				// hint placed right before / after the calls whose callee name contains the text
+				w2, r2 := splitWord(rest)
+				at = w2[1:]
+				rest = r2
 			}
 			e, err := ParseExpr(strings.TrimPrefix(rest, "lemma "))
 			if err != nil {
